@@ -556,7 +556,12 @@ class BaseModelCrossSet(BaseModel):
                 return
             all_samples = prep.sanitizer.transformers[0].sample_coords.to_index()
             masks.append(all_samples.isin(data[self.sample_name].to_index()))
-        if masks[0].size == masks[1].size and (masks[0] != masks[1]).any():
+        if masks[0].size != masks[1].size:
+            raise ValueError(
+                "X and Y have a different number of samples "
+                f"({masks[0].size} and {masks[1].size}, fully missing samples included)."
+            )
+        if (masks[0] != masks[1]).any():
             raise ValueError(
                 "X and Y have fully missing samples at different positions. "
                 "Please remove these samples from both fields before fitting."
